@@ -46,12 +46,13 @@ def kani_harnesses(prop, tier):
         return []
     if prop == "C18":
         # measured: center at order 2 ~110 s, at order 3 ~650 s (Vec push/clear); ecc/periphery at order 3 ~20 s
-        sel = [(1, "new ecc center periphery"), (2, "new ecc center periphery"), (3, "new ecc periphery")]
+        sel = [(1, "new ecc center periphery", "usize isize"), (2, "new ecc center periphery", "usize isize"), (3, "new ecc", "usize")]
         if tier == "thorough":
-            sel = [(1, "new ecc center periphery"), (2, "new ecc center periphery"), (3, "new ecc center periphery"), (4, "new ecc")]
+            sel = [(1, "new ecc center periphery", "usize isize"), (2, "new ecc center periphery", "usize isize"),
+                   (3, "new ecc center periphery", "usize isize"), (4, "new ecc", "usize isize")]
         hs = []
-        for n, ms in sel:
-            for w in ("usize", "isize"):
+        for n, ms, ws in sel:
+            for w in ws.split():
                 for m in ms.split():
                     hs.append("dm_%s_%s_%d" % (m, w, n))
         return hs
